@@ -62,7 +62,7 @@ def add_pyvc(rep: core.Report, ctx: core.Ctx, pid: str, files):
 
 
 # ---- one table for all properties ----------------------------------------------------------------
-ALL_CONTRACT_FILES = ["graph.py", "domains.py", "utils.py", "sum_product.py", "factorize.py", "formats.py", "derivations.py"]
+ALL_CONTRACT_FILES = ["graph.py", "domains.py", "utils.py", "sum_product.py", "factorize.py", "formats.py", "derivations.py", "conjunction.py"]
 
 
 def _semvc_laws(ctx, only=None):
